@@ -47,6 +47,27 @@ class SetCash(core.Algo):
         return True
 
 
+class DeferredTrade(core.Algo):
+    """A user algo whose last action of the day is a trade with update=False and
+    no closing update of its own (the engine's update after run() closes it)."""
+
+    def __init__(self, ticker, q=None, amount=None):
+        super().__init__()
+        self.ticker, self.q, self.amount = ticker, q, amount
+
+    def __call__(self, target):
+        target._create_child_if_needed(self.ticker)
+        c = target.children[self.ticker]
+        p = target.universe.loc[target.now, self.ticker] if self.ticker in target.universe.columns else float("nan")
+        if not (p == p) or p <= 0:
+            return True
+        if self.q is not None:
+            c.transact(float(self.q), update=False)
+        else:
+            c.allocate(float(self.amount), update=False)
+        return True
+
+
 class ReadReports(core.Algo):
     """A user algo that looks at the public report properties of its strategy in
     the middle of a run (reads are transparent: C08; the final reports: C18)."""
@@ -108,6 +129,8 @@ def make_algo(name, params, prog, spylog=None):
 
     if name == "SetCash":
         return SetCash(p["c"], p.get("start", 0))
+    if name == "DeferredTrade":
+        return DeferredTrade(p["ticker"], q=p.get("q"), amount=p.get("amount"))
     if name == "ReadReports":
         return ReadReports(**p)
     if name == "Spy":
